@@ -48,20 +48,35 @@ Qed.
 Lemma abs_bufferized v : abs (bufferized v) = stored (abs v).
 Proof. destruct v; reflexivity. Qed.
 
-(* ---------- nonil ---------- *)
+(* ---------- nonil, settable ---------- *)
 Definition nonil_es (es : entries) : bool := forallb (fun kv => nonil (snd kv)) es.
 
 Lemma nonil_map o f es : nonil (AMap o f es) = nonil_es es.
 Proof. simpl. induction es as [|[k v] r IH]; simpl; auto. now rewrite IH. Qed.
 
-Lemma nonil_lookup k es c : nonil_es es = true -> lookup k es = Some c -> nonil c = true.
+Definition settable_es (es : entries) : bool := forallb (fun kv => settable (snd kv)) es.
+
+Lemma settable_map o f es : settable (AMap o f es) = settable_es es.
+Proof. simpl. induction es as [|[k v] r IH]; simpl; auto. now rewrite IH. Qed.
+
+(* no nil holder at all is the special case *)
+Lemma nonil_settable : forall x, nonil x = true -> settable x = true.
+Proof.
+  induction x as [| | | | |o f es IH|nf] using any_ind'; try reflexivity; [|discriminate].
+  rewrite nonil_map, settable_map. unfold nonil_es, settable_es.
+  induction es as [|[k v] r IHr]; simpl; auto.
+  inversion IH as [|? ? Hv Hr]; subst. simpl in Hv.
+  intros H. apply andb_prop in H. destruct H as [H1 H2]. now rewrite (Hv H1), (IHr Hr H2).
+Qed.
+
+Lemma settable_lookup k es c : settable_es es = true -> lookup k es = Some c -> settable c = true.
 Proof.
   induction es as [|[k' v] r IH]; simpl; [discriminate|].
   intros H. apply andb_prop in H. destruct H as [Hv Hr].
   destruct (String.eqb k k'); intros E; [now inversion E; subst|auto].
 Qed.
 
-Lemma nonil_upsert k c es : nonil_es es = true -> nonil c = true -> nonil_es (upsert k c es) = true.
+Lemma settable_upsert k c es : settable_es es = true -> settable c = true -> settable_es (upsert k c es) = true.
 Proof.
   intros Hes Hc. induction es as [|[k' v] r IH]; simpl in *.
   - now rewrite Hc.
@@ -69,21 +84,24 @@ Proof.
     destruct (String.eqb k k'); simpl; [now rewrite Hc, Hr|now rewrite Hv, IH].
 Qed.
 
-Lemma nonil_bufferized v : nonil v = true -> nonil (bufferized v) = true.
+Lemma settable_bufferized v : settable v = true -> settable (bufferized v) = true.
 Proof. destruct v; auto. Qed.
 
-(* a value without nil holders is a map with entries or a leaf *)
-Lemma nonil_cases x : nonil x = true ->
-  (exists o f es, x = AMap o f es /\ nonil_es es = true) \/
+(* a settable value is a map with entries, a pointer to a nil map, or a leaf *)
+Lemma settable_cases x : settable x = true ->
+  (exists o f es, x = AMap o f es /\ settable_es es = true) \/
+  (exists nf, x = ANilMap nf /\ nil_storable nf = true) \/
   (indir1 true x = Err EUnsupported /\ exists l, abs x = TLeaf l).
 Proof.
-  destruct x; intros H; try (right; split; [reflexivity|eexists; reflexivity]).
-  - left. rewrite nonil_map in H. eauto.
-  - discriminate.
+  destruct x; intros H; try (right; right; split; [reflexivity|eexists; reflexivity]).
+  - left. rewrite settable_map in H. eauto.
+  - right; left. eauto.
 Qed.
 
 (* ---------- Set refines tset ---------- *)
-Lemma set_exact : forall p x v, nonil x = true -> p <> [] ->
+(* Set through a pointer to a nil map goes on with the map made for it; both
+   sides of every statement below compute to the same terms *)
+Lemma set_exact : forall p x v, settable x = true -> p <> [] ->
   match tset (abs x) p (stored (abs v)) with
   | SetOk t' => exists x', set true p x v = (x', Ok tt) /\ abs x' = t'
   | SetNonMap => set true p x v = (x, Err EUnsupported)
@@ -91,32 +109,42 @@ Lemma set_exact : forall p x v, nonil x = true -> p <> [] ->
 Proof.
   unfold set.
   induction p as [|k rest IH]; intros x v Hx Hne; [congruence|].
-  destruct (nonil_cases x Hx) as [[o [f [es [-> Hes]]]]|[Hi [l Hl]]].
-  2:{ rewrite Hl. simpl. now rewrite Hi. }
-  rewrite abs_map. cbn [tset]. rewrite tlookup_abs.
-  cbn [set_wb indir1 with_entries].
-  destruct (lookup k es) as [c|] eqn:Hlk; cbn [option_map].
-  - destruct rest as [|k2 r2].
-    + eexists. split; [reflexivity|]. now rewrite abs_map, upsert_abs, abs_bufferized.
-    + assert (Hc : nonil c = true) by (eapply nonil_lookup; eauto).
-      assert (Hr : k2 :: r2 <> []) by congruence.
-      specialize (IH c v Hc Hr).
-      destruct (tset (abs c) (k2 :: r2) (stored (abs v))) as [c''|].
-      * destruct IH as [c' [E Hc']]. rewrite E.
-        eexists. split; [reflexivity|]. now rewrite abs_map, upsert_abs, Hc'.
-      * rewrite IH. now rewrite (upsert_same _ _ _ Hlk).
-  - destruct rest as [|k2 r2].
-    + eexists. split; [reflexivity|]. now rewrite abs_map, upsert_abs, abs_bufferized.
-    + assert (Hr : k2 :: r2 <> []) by congruence.
-      specialize (IH (AMap OMake FVal []) v eq_refl Hr).
-      change (abs (AMap OMake FVal [])) with (TMap HVal []) in IH.
-      cbn [tset tlookup tupsert] in IH.
-      destruct IH as [c' [E Hc']]. rewrite E.
-      eexists. split; [reflexivity|]. rewrite abs_map, upsert_abs, Hc'. reflexivity.
+  assert (HM : forall o f es, settable_es es = true ->
+    match tset (abs (AMap o f es)) (k :: rest) (stored (abs v)) with
+    | SetOk t' => exists x', set_wb true (k :: rest) (AMap o f es) v = (x', Ok tt) /\ abs x' = t'
+    | SetNonMap => set_wb true (k :: rest) (AMap o f es) v = (AMap o f es, Err EUnsupported)
+    end).
+  { intros o f es Hes.
+    rewrite abs_map. cbn [tset]. rewrite tlookup_abs.
+    cbn [set_wb indir1 with_entries].
+    destruct (lookup k es) as [c|] eqn:Hlk; cbn [option_map].
+    - destruct rest as [|k2 r2].
+      + eexists. split; [reflexivity|]. now rewrite abs_map, upsert_abs, abs_bufferized.
+      + assert (Hc : settable c = true) by (eapply settable_lookup; eauto).
+        assert (Hr : k2 :: r2 <> []) by congruence.
+        specialize (IH c v Hc Hr).
+        destruct (tset (abs c) (k2 :: r2) (stored (abs v))) as [c''|].
+        * destruct IH as [c' [E Hc']]. rewrite E.
+          eexists. split; [reflexivity|]. now rewrite abs_map, upsert_abs, Hc'.
+        * rewrite IH. now rewrite (upsert_same _ _ _ Hlk).
+    - destruct rest as [|k2 r2].
+      + eexists. split; [reflexivity|]. now rewrite abs_map, upsert_abs, abs_bufferized.
+      + assert (Hr : k2 :: r2 <> []) by congruence.
+        specialize (IH (AMap OMake FVal []) v eq_refl Hr).
+        change (abs (AMap OMake FVal [])) with (TMap HVal []) in IH.
+        cbn [tset tlookup tupsert] in IH.
+        destruct IH as [c' [E Hc']]. rewrite E.
+        eexists. split; [reflexivity|]. rewrite abs_map, upsert_abs, Hc'. reflexivity. }
+  destruct (settable_cases x Hx) as [[o [f [es [-> Hes]]]]|[[nf [-> Hnf]]|[Hi [l Hl]]]].
+  - now apply HM.
+  - destruct nf; try discriminate.
+    + exact (HM OMake FPtr [] eq_refl).
+    + exact (HM OMake FPtr2 [] eq_refl).
+  - rewrite Hl. simpl. now rewrite Hi.
 Qed.
 
 (* an error leaves the tree as it was; the only error is the unsupported type *)
-Lemma set_error_unchanged : forall p x v e, nonil x = true ->
+Lemma set_error_unchanged : forall p x v e, settable x = true ->
   snd (set true p x v) = Err e -> e = EUnsupported /\ fst (set true p x v) = x.
 Proof.
   intros p x v e Hx H.
@@ -129,41 +157,57 @@ Qed.
 
 (* reading back gives the stored copy itself: for a string or byte slice the
    value handed out by the buffer ([OBuf]), tight *)
-Lemma set_then_get : forall p x v, nonil x = true -> p <> [] ->
+Lemma set_then_get : forall p x v, settable x = true -> p <> [] ->
   snd (set true p x v) = Ok tt ->
   get true p (fst (set true p x v)) = Ok (Some (bufferized v)).
 Proof.
   unfold set, get.
   induction p as [|k rest IH]; intros x v Hx Hne Hok; [congruence|].
-  destruct (nonil_cases x Hx) as [[o [f [es [-> Hes]]]]|[Hi _]].
-  2:{ simpl in Hok. rewrite Hi in Hok. discriminate. }
-  cbn [set_wb indir1 with_entries] in *.
-  destruct rest as [|k2 r2].
-  - cbn [fst get_to indir indir1]. now rewrite lookup_upsert_eq.
-  - set (c := match lookup k es with Some x => x | None => AMap OMake FVal [] end) in *.
-    assert (Hc : nonil c = true).
-    { unfold c. destruct (lookup k es) eqn:E; [eapply nonil_lookup; eauto|reflexivity]. }
-    specialize (IH c v Hc ltac:(congruence)).
-    destruct (set_wb true (k2 :: r2) c v) as [c' r] eqn:E.
-    destruct r as [[]|e|pk]; cbn [fst snd] in *; try discriminate.
-    cbn [get_to indir indir1]. rewrite lookup_upsert_eq. now apply IH.
+  assert (HM : forall o f es, settable_es es = true ->
+    snd (set_wb true (k :: rest) (AMap o f es) v) = Ok tt ->
+    get_to true (k :: rest) (fst (set_wb true (k :: rest) (AMap o f es) v)) = Ok (Some (bufferized v))).
+  { intros o f es Hes Hok'.
+    cbn [set_wb indir1 with_entries] in *.
+    destruct rest as [|k2 r2].
+    - cbn [fst get_to indir indir1]. now rewrite lookup_upsert_eq.
+    - set (c := match lookup k es with Some x => x | None => AMap OMake FVal [] end) in *.
+      assert (Hc : settable c = true).
+      { unfold c. destruct (lookup k es) eqn:E; [eapply settable_lookup; eauto|reflexivity]. }
+      specialize (IH c v Hc ltac:(congruence)).
+      destruct (set_wb true (k2 :: r2) c v) as [c' r] eqn:E.
+      destruct r as [[]|e|pk]; cbn [fst snd] in *; try discriminate.
+      cbn [get_to indir indir1]. rewrite lookup_upsert_eq. now apply IH. }
+  destruct (settable_cases x Hx) as [[o [f [es [-> Hes]]]]|[[nf [-> Hnf]]|[Hi _]]].
+  - now apply HM.
+  - destruct nf; try discriminate.
+    + exact (HM OMake FPtr [] eq_refl Hok).
+    + exact (HM OMake FPtr2 [] eq_refl Hok).
+  - simpl in Hok. rewrite Hi in Hok. discriminate.
 Qed.
 
-Lemma set_nonil : forall p x v, nonil x = true -> nonil v = true -> nonil (fst (set true p x v)) = true.
+(* Set keeps the domain: what it makes is a map, what it stores is the value *)
+Lemma set_settable : forall p x v, settable x = true -> settable v = true -> settable (fst (set true p x v)) = true.
 Proof.
   unfold set.
   induction p as [|k rest IH]; intros x v Hx Hv; [assumption|].
-  destruct (nonil_cases x Hx) as [[o [f [es [-> Hes]]]]|[Hi _]].
-  2:{ simpl. now rewrite Hi. }
-  cbn [set_wb indir1 with_entries].
-  destruct rest as [|k2 r2].
-  - cbn [fst]. rewrite nonil_map. apply nonil_upsert; auto. now apply nonil_bufferized.
-  - set (c := match lookup k es with Some x => x | None => AMap OMake FVal [] end).
-    assert (Hc : nonil c = true).
-    { unfold c. destruct (lookup k es) eqn:E; [eapply nonil_lookup; eauto|reflexivity]. }
-    specialize (IH c v Hc Hv).
-    destruct (set_wb true (k2 :: r2) c v) as [c' r] eqn:E. cbn [fst] in IH.
-    destruct r as [[]|e|pk]; cbn [fst]; rewrite ?nonil_map; auto; apply nonil_upsert; auto.
+  assert (HM : forall o f es, settable_es es = true ->
+    settable (fst (set_wb true (k :: rest) (AMap o f es) v)) = true).
+  { intros o f es Hes.
+    cbn [set_wb indir1 with_entries].
+    destruct rest as [|k2 r2].
+    - cbn [fst]. rewrite settable_map. apply settable_upsert; auto. now apply settable_bufferized.
+    - set (c := match lookup k es with Some x => x | None => AMap OMake FVal [] end).
+      assert (Hc : settable c = true).
+      { unfold c. destruct (lookup k es) eqn:E; [eapply settable_lookup; eauto|reflexivity]. }
+      specialize (IH c v Hc Hv).
+      destruct (set_wb true (k2 :: r2) c v) as [c' r] eqn:E. cbn [fst] in IH.
+      destruct r as [[]|e|pk]; cbn [fst]; rewrite ?settable_map; auto; apply settable_upsert; auto. }
+  destruct (settable_cases x Hx) as [[o [f [es [-> Hes]]]]|[[nf [-> Hnf]]|[Hi _]]].
+  - now apply HM.
+  - destruct nf; try discriminate.
+    + exact (HM OMake FPtr [] eq_refl).
+    + exact (HM OMake FPtr2 [] eq_refl).
+  - simpl. now rewrite Hi.
 Qed.
 
 Lemma set_never_panics : forall p x v pk, snd (set true p x v) <> Panic pk.
@@ -171,9 +215,10 @@ Proof.
   unfold set.
   induction p as [|k rest IH]; intros x v pk; [simpl; discriminate|].
   cbn [set_wb].
-  destruct (indir1 true x) as [[es|]|e|q] eqn:Hi; cbn [snd]; try discriminate.
-  - destruct rest as [|k2 r2]; [simpl; discriminate|].
-    set (c := match lookup k es with Some x => x | None => AMap OMake FVal [] end).
+  destruct (indir1 true x) as [m|e|q] eqn:Hi; cbn [snd]; try discriminate.
+  - destruct (match m with Some _ => Some x | None => made true x end) as [d|]; cbn [snd]; [|discriminate].
+    destruct rest as [|k2 r2]; [simpl; discriminate|].
+    set (c := match lookup k (match m with Some es => es | None => [] end) with Some x => x | None => AMap OMake FVal [] end).
     specialize (IH c v).
     destruct (set_wb true (k2 :: r2) c v) as [c' r]. cbn [snd] in IH.
     destruct r as [[]|e|pk']; cbn [snd]; try discriminate. intros H. inversion H; subst. now apply (IH pk).
@@ -231,7 +276,7 @@ Proof.
 Qed.
 
 (* the same two facts about the model's result, through the refinement *)
-Lemma set_frame_model : forall p x v q, nonil x = true -> off_path p q = true ->
+Lemma set_frame_model : forall p x v q, settable x = true -> off_path p q = true ->
   tnav (abs (fst (set true p x v))) q = tnav (abs x) q.
 Proof.
   intros p x v q Hx Hoff.
@@ -291,18 +336,23 @@ Lemma set_wf : forall p x v, wf x = true -> wf v = true -> wf (fst (set true p x
 Proof.
   unfold set.
   induction p as [|k rest IH]; intros x v Hx Hv; [assumption|].
-  cbn [set_wb].
+  assert (HM : forall o f es, wf (AMap o f es) = true ->
+    wf (fst (set_wb true (k :: rest) (AMap o f es) v)) = true).
+  { intros o f es Hm.
+    cbn [set_wb indir1 with_entries].
+    rewrite wf_map in Hm. apply andb_prop in Hm. destruct Hm as [Hk Hes].
+    destruct rest as [|k2 r2].
+    - cbn [fst]. rewrite wf_map, keys_nodup_upsert, wf_es_upsert; auto. now apply wf_bufferized.
+    - set (c := match lookup k es with Some x => x | None => AMap OMake FVal [] end).
+      assert (Hc : wf c = true).
+      { unfold c. destruct (lookup k es) eqn:E; [eapply wf_lookup; eauto|reflexivity]. }
+      specialize (IH c v Hc Hv).
+      destruct (set_wb true (k2 :: r2) c v) as [c' r] eqn:E. cbn [fst] in IH.
+      destruct r as [[]|e|pk]; cbn [fst]; rewrite ?wf_map, ?keys_nodup_upsert, ?wf_es_upsert; auto.
+      now rewrite Hk, Hes. }
   destruct x; try (simpl; assumption).
-  2:{ simpl. destruct (nil_is_pointer nf); assumption. }
-  cbn [indir1 with_entries].
-  rewrite wf_map in Hx. apply andb_prop in Hx. destruct Hx as [Hk Hes].
-  destruct rest as [|k2 r2].
-  - cbn [fst]. rewrite wf_map, keys_nodup_upsert, wf_es_upsert; auto. now apply wf_bufferized.
-  - set (c := match lookup k es with Some x => x | None => AMap OMake FVal [] end).
-    assert (Hc : wf c = true).
-    { unfold c. destruct (lookup k es) eqn:E; [eapply wf_lookup; eauto|reflexivity]. }
-    specialize (IH c v Hc Hv).
-    destruct (set_wb true (k2 :: r2) c v) as [c' r] eqn:E. cbn [fst] in IH.
-    destruct r as [[]|e|pk]; cbn [fst]; rewrite ?wf_map, ?keys_nodup_upsert, ?wf_es_upsert; auto.
-    now rewrite Hk, Hes.
+  - now apply HM.
+  - destruct nf; try (simpl; assumption).
+    + exact (HM OMake FPtr [] eq_refl).
+    + exact (HM OMake FPtr2 [] eq_refl).
 Qed.
